@@ -100,6 +100,10 @@ func (lg *locGen) fuzzOp() []interface{} {
 	switch r.Intn(9) {
 	case 0, 1:
 		o["op"], o["id"], o["fact"] = "addfact", id, lg.fuzzFact()
+		if r.Intn(12) == 0 {
+			// a property fact written directly: the location becomes its own parent (or the child of nobody known)
+			o["fact"] = map[string]interface{}{"!parents": []interface{}{pick(r, loc, loc, "nowhere", 5.0)}}
+		}
 	case 2, 3:
 		o["op"], o["id"], o["rule"] = "addrule", id, lg.fuzzRule()
 		o["sem"] = map[string]interface{}{}
@@ -117,6 +121,10 @@ func (lg *locGen) fuzzOp() []interface{} {
 		o["sem"] = map[string]interface{}{}
 	case 6:
 		o["op"], o["id"] = pick(r, "getfact", "getrule", "remfact", "remrule").(string), pick(r, id, "", "?x", "!.p", "!"+id+".disabled").(string)
+		if r.Intn(4) == 0 {
+			delete(o, "id")
+			o["op"], o["inherited"] = "listrules", r.Intn(2) == 0
+		}
 	case 7:
 		o["op"] = "query"
 		q, _ := lg.weird(3).(map[string]interface{})
